@@ -438,6 +438,20 @@ class World:
                     t.level = tspec['level']
                 self.tests[tid] = t
 
+    def _build_doctests(self):
+        """doctest cases (C17): world['doctests'][id] = {name, source}; they are
+        appended to the default suite after the classes"""
+        import doctest
+        out = []
+        for did, d in self.spec.get('doctests', {}).items():
+            parser = doctest.DocTestParser()
+            dt = parser.get_doctest(d['source'], {}, d['name'], '/nowhere/%s.txt' % did, 0)
+            case = doctest.DocTestCase(dt, optionflags=doctest.ELLIPSIS)
+            case._verif_id = did
+            self.tests[did] = case
+            out.append(case)
+        return out
+
     def _make_method(self, tid, tspec):
         world = self
 
@@ -604,7 +618,10 @@ class World:
             # default: one suite per class, in class order
             node = {'children': [{'cls': c}
                                  for c in self.spec.get('classes', {})]}
-        return self._suite(node)
+        suite = self._suite(node)
+        for case in self._build_doctests():
+            suite.addTest(case)
+        return suite
 
     def _suite(self, node):
         if 'test' in node:
